@@ -340,6 +340,8 @@ def iter_unordered(
     )
 
     if use_mpi():
+        # the root rank only distributes tasks, there must be at least one worker
+        max_workers = max(max_workers, 2)
         if rank0_node_only:
             ranks = ranks_on_same_node(rank=0, max_workers=max_workers, comm=comm)
         else:
